@@ -45,7 +45,8 @@ REQUIRED_MONITORS = ["embed.jacobian", "vgbs.A", "A_to_cov", "vgbs.moments", "pr
                      "normalisation.pnr", "normalisation.threshold", "KL.grad.pnr", "Stochastic.grad.pnr",
                      "Stochastic.reparametrisation", "vgbs.samples", "prob_orbit_exact", "prob_event_exact",
                      "prob_mc.bounds", "gbs_params", "duschinsky", "franck_condon", "vibronic.state",
-                     "TimeEvolution", "dynamics.conservation", "marginals"]
+                     "TimeEvolution", "dynamics.conservation", "dynamics.premeasure-state", "vibronic.sample-state",
+                     "marginals"]
 
 # CODATA 2018 (exact SI values where defined)
 H = 6.62607015e-34
@@ -143,11 +144,13 @@ def gen_A(rng, n):
     return c, np.outer(v, v)
 
 
-def gen_vgbs_case(rng):
+def gen_vgbs_case(rng, thr=None):
     n = int(rng.choice([2, 3, 3, 4, 4, 5]))
     cls, A = gen_A(rng, n)
-    thr = bool(rng.random() < 0.4)
-    n_mean = float(rng.uniform(0.2, min(3.0, 0.8 * n) if thr else 3.0))
+    draw = bool(rng.random() < 0.4)
+    thr = draw if thr is None else thr
+    support = int(np.sum(np.any(A != 0, axis=1)))  # modes that can hold photons at all
+    n_mean = float(rng.uniform(0.2, min(3.0, 0.8 * support) if thr else 3.0))
     if rng.random() < 0.5:
         emb = {"type": "Exp"}
         d = n
@@ -734,7 +737,22 @@ def run_vibronic(case, rep, V):
 
     # ---- samples: shape
     np.random.seed(7)
-    s = vibronic.sample(t, U1, r, U2, alpha, case["n_samples"], case["loss"])
+    s, snap = premeasure(lambda: vibronic.sample(t, U1, r, U2, alpha, case["n_samples"], case["loss"]))
+    if snap is None:
+        V("vibronic.sample", "no-measurement", "no MeasureFock was applied")
+    else:
+        # sample() must measure the state of the documented circuit (checked above), attenuated by the loss
+        rep.monitor("vibronic.sample-state")
+        T_ = 1.0 - case["loss"]
+        mu_s, V_s = np.sqrt(T_) * mu_l, T_ * V_l + (1 - T_) * np.eye(len(V_l))
+        if snap.V.shape != V_s.shape:
+            V("vibronic.sample", "measured-state", "sample() simulates %d modes, the documented circuit has %d"
+              % (len(snap.V) // 2, len(V_s) // 2))
+        else:
+            dv = gauss_dev(snap, mu_s, V_s)
+            if dv > 1e-8 * (1 + np.max(np.abs(V_s))):
+                V("vibronic.sample", "measured-state", "state measured by sample() differs from the documented circuit "
+                  "followed by loss %.3g by %.3g" % (case["loss"], dv))
     if len(s) != case["n_samples"] or any(len(x) != 2 * n for x in s):
         V("vibronic.sample", "sample-shape", "samples of lengths %s for %d modes" % ([len(x) for x in s], n))
     elif T == 0 and any(any(x[n:]) for x in s):
@@ -765,11 +783,51 @@ def run_duschinsky(case, rep, V):
     l = np.sqrt((H / (2 * np.pi)) / omega) / (1e-10 * np.sqrt(MU))
     d = delta * l
     dev = np.max(np.abs(qf_in - (U @ qi_in + d)))
-    rep.dev("duschinsky", dev, 1e-8 * (1 + np.max(np.abs(qf_in))))
-    if dev > 1e-8 * (1 + np.max(np.abs(qf_in))):
+    # 1e-6 relative: scipy's CODATA release may differ from the constants written out above in the 9th digit
+    tol = 1e-6 * (1 + np.max(np.abs(qf_in)) + np.max(np.abs(d)))
+    rep.dev("duschinsky", dev, tol)
+    if dev > tol:
         V("duschinsky", "relation-not-reproduced", "q_f differs from U q_i + d by %.3g on a random geometry" % dev)
     if np.max(np.abs(U - Lf.T @ Li)) > 1e-12:
         V("duschinsky", "rotation", "U is not Lf^T Li")
+
+
+def premeasure(call):
+    """Run call() and return (result, snapshot of the simulator state at the first MeasureFock)."""
+    from ..simrun import Snap
+
+    snaps = []
+
+    def pre(op, reg, backend, kwargs):
+        if type(op).__name__ == "MeasureFock" and not snaps:
+            snaps.append(Snap(backend))
+
+    with CommandTap() as tap:
+        tap.pre.append(pre)
+        out = call()
+    return out, (snaps[0] if snaps else None)
+
+
+def permanent(M):
+    n = M.shape[0]
+    if n == 0:
+        return 1.0 + 0j
+    return sum(np.prod([M[i, p[i]] for i in range(n)]) for p in itertools.permutations(range(n)))
+
+
+def fock_transition_prob(U, n_in, n_out):
+    """|<n_out| U |n_in>|^2 for the linear-optical unitary a_out = U a_in."""
+    rows = [j for j, c in enumerate(n_out) for _ in range(c)]
+    cols = [k for k, c in enumerate(n_in) for _ in range(c)]
+    if len(rows) != len(cols):
+        return 0.0
+    amp = permanent(U[np.ix_(rows, cols)])
+    norm = np.prod([math.factorial(c) for c in n_in]) * np.prod([math.factorial(c) for c in n_out])
+    return float(abs(amp) ** 2 / norm)
+
+
+def gauss_dev(snap, mu, Vc):
+    return max(float(np.max(np.abs(snap.mu - mu))), float(np.max(np.abs(snap.V - Vc))))
 
 
 def run_dynamics(case, rep, V):
@@ -827,7 +885,33 @@ def run_dynamics(case, rep, V):
     fin = case["fock_in"]
     tot = sum(fin)
     np.random.seed(case["state_seed"] % (2 ** 31))
-    s = dynamics.sample_fock(fin, t, Ul, w, case["n_samples"], tot + 1 + (1 if loss else 0), loss)
+    U_tot = Ul.astype(complex) @ np.diag(np.exp(1j * theta_ref)) @ Ul.T
+    s, snap = premeasure(lambda: dynamics.sample_fock(fin, t, Ul, w, case["n_samples"], tot + 1 + (1 if loss else 0), loss))
+    if snap is None:
+        V("sample_fock", "no-measurement", "no MeasureFock was applied")
+    elif loss == 0 and tot <= 5:
+        rep.monitor("dynamics.premeasure-state")
+        worst, total = 0.0, 0.0
+        for pat in rp.patterns_with_total(n, tot):
+            ref = fock_transition_prob(U_tot, fin, pat)
+            idx = tuple(k for c in pat for k in (c, c))
+            got = float(np.real(snap.dm[idx]))
+            worst = max(worst, abs(got - ref))
+            total += ref
+        if abs(total - 1) > 1e-9:
+            rep.error("oracle(permanent) not normalised", RuntimeError(str(total)))
+        rep.dev("sample_fock.distribution", worst, 1e-7)
+        if worst > 1e-7:
+            V("sample_fock", "measured-state-not-U(t)", "photon distribution before the measurement differs from "
+              "|<m|Ul exp(-i w t) Ul^T|n>|^2 by %.3g (input %s)" % (worst, fin))
+    elif snap is not None:
+        # first moments under loss: <n_j> = (1 - loss) sum_k |U_jk|^2 n_k
+        rep.monitor("dynamics.premeasure-state")
+        ref = (1 - loss) * (np.abs(U_tot) ** 2 @ np.array(fin, dtype=float))
+        got = np.array([float(np.real(np.trace(snap.reduced_matrix([j]) @ np.diag(np.arange(snap.D))))) for j in range(n)])
+        if np.max(np.abs(got - ref)) > 1e-7:
+            V("sample_fock", "measured-state-not-U(t):lossy", "mean photon numbers before the measurement %s, expected %s"
+              % (np.round(got, 6).tolist(), np.round(ref, 6).tolist()))
     if len(s) != case["n_samples"] or any(len(x) != n for x in s):
         V("sample_fock", "sample-shape", "shape of samples %s" % (np.shape(s),))
     for x in s:
@@ -845,7 +929,22 @@ def run_dynamics(case, rep, V):
         if any(list(x) != list(fin) for x in s):
             V("sample_fock", "identity-evolution-changes-state", "input %s, samples %s" % (fin, s))
         rep.seen("flags", "sample_fock:identity-evolution")
-    s = dynamics.sample_tmsv(case["r"], t, Ul, w, case["n_samples"], loss)
+    s, snap = premeasure(lambda: dynamics.sample_tmsv(case["r"], t, Ul, w, case["n_samples"], loss))
+    gt = rg.GState(2 * n)
+    for i in range(n):
+        S, d = rg.gate_sd("S2gate", [case["r"][i][0], case["r"][i][1]])
+        gt.apply_sd(S, d, [i, i + n])
+    gt.apply_sd(rg.interferometer_S(U_tot), np.zeros(2 * n), list(range(n)))
+    mu_t, V_t = lossy(gt, loss)
+    if snap is None:
+        V("sample_tmsv", "no-measurement", "no MeasureFock was applied")
+    else:
+        rep.monitor("dynamics.premeasure-state")
+        dv = gauss_dev(snap, mu_t, V_t)
+        rep.dev("sample_tmsv.state", dv, 1e-8 * (1 + np.max(np.abs(V_t))))
+        if dv > 1e-8 * (1 + np.max(np.abs(V_t))):
+            V("sample_tmsv", "measured-state-not-U(t)", "Gaussian state before the measurement differs from the "
+              "two-mode-squeezed state evolved by Ul exp(-i w t) Ul^T by %.3g" % dv)
     if len(s) != case["n_samples"] or any(len(x) != 2 * n for x in s):
         V("sample_tmsv", "sample-shape", "shape of samples %s" % (np.shape(s),))
     else:
@@ -857,7 +956,22 @@ def run_dynamics(case, rep, V):
             if loss == 1 and sum(x) != 0:
                 V("sample_tmsv", "photons-survive-total-loss", "sample %s" % (x,))
                 break
-    s = dynamics.sample_coherent(case["alpha"], t, Ul, w, case["n_samples"], loss)
+    s, snap = premeasure(lambda: dynamics.sample_coherent(case["alpha"], t, Ul, w, case["n_samples"], loss))
+    gc = rg.GState(n)
+    for i in range(n):
+        S, d = rg.gate_sd("Dgate", [case["alpha"][i][0], case["alpha"][i][1]])
+        gc.apply_sd(S, d, [i])
+    gc.apply_sd(rg.interferometer_S(U_tot), np.zeros(2 * n), list(range(n)))
+    mu_c, V_c = lossy(gc, loss)
+    if snap is None:
+        V("sample_coherent", "no-measurement", "no MeasureFock was applied")
+    else:
+        rep.monitor("dynamics.premeasure-state")
+        dv = gauss_dev(snap, mu_c, V_c)
+        rep.dev("sample_coherent.state", dv, 1e-8 * (1 + np.max(np.abs(mu_c))))
+        if dv > 1e-8 * (1 + np.max(np.abs(mu_c))):
+            V("sample_coherent", "measured-state-not-U(t)", "Gaussian state before the measurement differs from the "
+              "coherent state evolved by Ul exp(-i w t) Ul^T by %.3g" % dv)
     if len(s) != case["n_samples"] or any(len(x) != n for x in s):
         V("sample_coherent", "sample-shape", "shape of samples %s" % (np.shape(s),))
     elif loss == 1 and any(sum(x) != 0 for x in s):
@@ -922,10 +1036,11 @@ def run_shard(shard, rep):
     for i in range(shard["n"]):
         # the first few cases of every shard cycle through the families so that even the quick tier reaches all monitors
         if i < len(kinds) and kinds[i] in gens:
-            case = gens[kinds[i]](rng)
             if kinds[i] == "vgbs":
-                case["threshold"] = bool((shard["id"] + i) % 2)
+                case = gen_vgbs_case(rng, thr=bool((shard["id"] + i) % 2))
                 case["sample_calls"] = shard["id"] % 4 == 0
+            else:
+                case = gens[kinds[i]](rng)
         else:
             case = gen_case(rng)
         try:
